@@ -87,6 +87,11 @@ def paths(rdef, res, strict):
                     ("guard_set_nested", nested)):
         o = real.run_guard(p, req, {"strict": strict})
         out[name] = o["ok"]["allowed"] if "ok" in o else "raised:" + o["raised"]
+    # the matching mode is the engine's configuration, not something another collaborator's outcome may switch: the same single policy
+    # on an engine whose role resolver fails (the documented fall-back to the subject's own roles) and on one whose resolver answers
+    for name, rs in ((("guard_resolver_raises", "raise"), ("guard_resolver_answers", {"ok": ["x"]})) if strict else ()):
+        o = real.run_guard(pol, req, {"strict": strict, "resolver": rs})
+        out[name] = o["ok"]["allowed"] if "ok" in o else "raised:" + o["raised"]
     # the target under test as a deny next to a catch-all permit: a target that does not match must not hide the catch-all
     shadow = {"algorithm": "deny-overrides", "rules": [dict(rule, id="t", effect="deny"),
                                                         {"id": "w", "effect": "permit", "actions": ["*"], "resource": {"type": "*"}}]}
